@@ -121,6 +121,15 @@ func opBaseKey(in ssa.Instruction) string {
 		if b, ok := x.Call.Value.(*ssa.Builtin); ok && b.Name() == "close" {
 			return "close(" + valueName(x.Call.Args[0]) + ")"
 		}
+	case *ssa.Panic:
+		// explicit panic sites of the source (compiler-generated ones carry no position)
+		if x.Pos().IsValid() {
+			v := x.X
+			if mi, ok := v.(*ssa.MakeInterface); ok {
+				v = mi.X
+			}
+			return "panic(" + valueName(v) + ")"
+		}
 	}
 	return ""
 }
@@ -956,6 +965,12 @@ func (c *FnCtx) cancellable(fr *Frame) {
 			continue
 		}
 		lastWasTag = false
+		wantCtx := ""
+		if i := strings.Index(nm, ":"); i > 0 {
+			// `ch:ctxname`: the Done case must be on that context
+			wantCtx = nm[i+1:]
+			nm = nm[:i]
+		}
 		r := &OblResult{Name: c.eng.shortFuncName(fr.fn) + "/cancellable:" + nm, Class: "cancellable", Func: c.eng.funcKey(fr.fn), Kind: "prove",
 			Clause: "every send / receive on " + nm + " is a select case next to a <-ctx.Done() case", Status: "discharged", Solve: SolveResult{Status: "unsat", Winner: "ssa-scan"}}
 		var bad []string
@@ -986,14 +1001,14 @@ func (c *FnCtx) cancellable(fr *Frame) {
 						if valueName(s.Chan) == nm {
 							has = true
 						}
-						if s.Dir == types.RecvOnly && strings.HasPrefix(valueName(s.Chan), "done(") {
+						if s.Dir == types.RecvOnly && strings.HasPrefix(valueName(s.Chan), "done(") && (wantCtx == "" || valueName(s.Chan) == "done("+wantCtx+")") {
 							done = true
 						}
 					}
 					if has {
 						seen++
 						if !done {
-							bad = append(bad, "select without a <-ctx.Done() case at "+where(in))
+							bad = append(bad, "select without a <-"+map[bool]string{true: "ctx", false: wantCtx}[wantCtx == ""]+".Done() case at "+where(in))
 						} else if !x.Blocking {
 							// a default case never blocks either: fine
 						}
